@@ -158,10 +158,10 @@ def build_gate(case, objs):
     if k == "iswap":
         return qib.ISwapGate(ps[0], ps[1])
     if k == "single":
-        cls = getattr(qib, gd["cls"])
+        cls = getattr(qib.operator, gd["cls"])
         return cls(*gd.get("args", []), ps[0])
     if k == "rzz":
-        return getattr(qib, gd["cls"])(gd["theta"], ps[0], ps[1])
+        return getattr(qib.operator, gd["cls"])(gd["theta"], ps[0], ps[1])
     if k == "phase":
         g = qib.PhaseFactorGate(gd["phi"], gd["m"])
         g.on(ps)
@@ -192,10 +192,12 @@ def impl(case):
             fields, objs = build_fields(case)
             gate = build_gate(case, objs)
             gm = np.asarray(gate.as_matrix())
-            case["_g"] = dense_json(gm)
-            case["_particles"] = [[_fid_of(objs, p.field), int(p.index)] for p in gate.particles()]
-            sp = gate.as_circuit_matrix(fields)
-            return {"coo": coo_canon(sp), "shape": list(sp.shape)}
+            extra = {"_g": dense_json(gm), "_particles": [[_fid_of(objs, p.field), int(p.index)] for p in gate.particles()]}
+            try:
+                sp = gate.as_circuit_matrix(fields)
+            except Exception as e:
+                return {"raised": kind_of(e), "msg": f"{type(e).__name__}: {e}"[:160], **extra}
+            return {"coo": coo_canon(sp), "shape": list(sp.shape), **extra}
         if op == "permute":
             u = np.array([[complex(a, b) for a, b in row] for row in case["u"]])
             r = _ctx["qib"].util.permute_gate_wires(u, case["perm"])
@@ -207,7 +209,7 @@ def impl(case):
                 objs[fid] = _ctx["qib"].field.Field(_ctx["qib"].field.ParticleType.QUBIT, _ctx["qib"].lattice.IntegerLattice((3,), pbc=False))
             return {"wire": int(_ctx["qib"].util.map_particle_to_wire(fields, mk_particle(objs, fid, idx)))}
     except Exception as e:  # the code under test raised
-        if op == "gate.circuit_matrix" and "_g" not in case:
+        if op == "gate.circuit_matrix":
             raise  # construction problem in the harness, not in as_circuit_matrix
         return {"raised": kind_of(e), "msg": f"{type(e).__name__}: {e}"[:160]}
     raise ValueError(op)
@@ -220,14 +222,16 @@ def _fid_of(objs, f):
     return 10 ** 6
 
 
-def model_req(case):
+def model_req(case, o):
     op = case["op"]
+    if "harness_exception" in o:
+        return {"op": "wire", "fields": [], "particle": [0, 0]}
     if op == "embed":
         return {"op": "embed", "n": case["n"], "iw": case["iw"], "g": case["g"]}
     if op == "gate.circuit_matrix":
         defs = {fid: (ns, ld) for fid, ns, ld in case["field_defs"]}
         return {"op": "gate.circuit_matrix", "fields": [[fid, defs[fid][0], defs[fid][1]] for fid in case["order"]],
-                "particles": case["_particles"], "g": case["_g"]}
+                "particles": o["_particles"], "g": o["_g"]}
     if op == "permute":
         return {"op": "permute", "perm": case["perm"], "u": case["u"]}
     if op == "wire":
@@ -266,15 +270,16 @@ def compare(case, o, m):
 # the property itself, on what the implementation did
 # ---------------------------------------------------------------------------------------------
 
-def wires_expected(case):
+def wires_expected(case, o):
     """independent wire computation for the public path: offset of the field in the given order + index"""
+    out = o
     defs = {fid: (ns, ld) for fid, ns, ld in case["field_defs"]}
     off, o = {}, 0
     for fid in case["order"]:
         if fid not in off:
             off[fid] = o
         o += defs[fid][0]
-    return o, [(off[fid] + idx) if fid in off else None for fid, idx in case["_particles"]], defs
+    return o, [(off[fid] + idx) if fid in off else None for fid, idx in out["_particles"]], defs
 
 
 def oracle(case, o):
@@ -303,26 +308,27 @@ def oracle(case, o):
             bad.append(("C04:distribute:wrong-matrix", f"n={n} iw={iw}: (row,col): expected vs got {diff}"))
         return bad
     if op == "gate.circuit_matrix":
-        n, wires, defs = wires_expected(case)
+        n, wires, defs = wires_expected(case, o)
+        parts = o["_particles"]
         kind = case["gate"]["kind"]
         must_reject = None
         if any(defs[fid][1] != 2 for fid in case["order"]):
             must_reject = "NotImplemented"
-        elif not case["_particles"] or any(w is None for w in wires):
+        elif not parts or any(w is None for w in wires):
             must_reject = "RuntimeError"
-        elif any(idx < 0 or idx >= defs[fid][0] for fid, idx in case["_particles"]):
+        elif any(idx < 0 or idx >= defs[fid][0] for fid, idx in parts):
             return []   # particle outside its lattice: caller's error, no claim
         elif len(set(wires)) != len(wires):
             must_reject = "Assertion"
         if must_reject:
             if "raised" not in o:
-                bad.append((f"C04:as_circuit_matrix:{kind}:malformed-accepted", f"expected {must_reject}, got a matrix; particles={case['_particles']} order={case['order']}"))
+                bad.append((f"C04:as_circuit_matrix:{kind}:malformed-accepted", f"expected {must_reject}, got a matrix; particles={parts} order={case['order']}"))
             elif o["raised"] != must_reject:
                 bad.append((f"C04:as_circuit_matrix:{kind}:wrong-error-kind", f"expected {must_reject}, got {o['msg']}"))
             return bad
         if "raised" in o:
-            return [(f"C04:as_circuit_matrix:{kind}:valid-input-rejected", f"{o['msg']}; particles={case['_particles']} order={case['order']}")]
-        exp = ref_embed(n, wires, to_np(case["_g"]))
+            return [(f"C04:as_circuit_matrix:{kind}:valid-input-rejected", f"{o['msg']}; particles={parts} order={case['order']}")]
+        exp = ref_embed(n, wires, to_np(o["_g"]))
         got = coo_to_dict(o["coo"])
         if o["shape"] != [2 ** n, 2 ** n]:
             bad.append((f"C04:as_circuit_matrix:{kind}:shape", f"shape {o['shape']} for {n} wires"))
@@ -354,9 +360,8 @@ def oracle(case, o):
             bad.append(("C04:permute:wrong-matrix", f"perm={perm}: result is not the axis transposition"))
         # the matching conjugation: placing the permuted gate on wires iw = placing u on the wires iw[perm^-1]
         n = nw + 1
-        iw = [(3 * a + 1) % n for a in range(nw)] if nw < 3 else list(range(1, nw + 1))
-        iw = list(dict.fromkeys(iw))
-        if len(iw) == nw:
+        iw = [nw - a for a in range(nw)]
+        if True:
             inv = [perm.index(k) for k in range(nw)]
             a1 = _ctx["dist"](n, iw, _ctx["csr"](got)).toarray()
             a2 = _ctx["dist"](n, [iw[inv[k]] for k in range(nw)], _ctx["csr"](u)).toarray()
@@ -421,8 +426,10 @@ def gen_embed(tier, rng):
                     iw[rng.randrange(m)] = -1 - rng.randrange(2)
                 d = 2 ** m
                 if kind == "shape":
+                    if m > n:
+                        continue
                     d = 2 ** (m + 1) if rng.random() < 0.5 else max(1, 2 ** (m - 1))
-                    iw = rng.sample(range(max(n, m)), m) if m <= n else iw
+                    iw = rng.sample(range(n), m)
                 if kind == "toolong":
                     iw = list(range(n)) + [rng.randrange(n)]
                     d = 2 ** len(iw)
@@ -479,7 +486,7 @@ def rand_gate_desc(rng, max_m):
 def gen_public(tier, rng):
     thorough = tier == "thorough"
     cap = 9 if thorough else 7
-    layouts = 60 if thorough else 14
+    layouts = 160 if thorough else 40
     for _ in range(layouts):
         nf = rng.randint(1, 3)
         while True:
@@ -490,7 +497,7 @@ def gen_public(tier, rng):
         defs = [[fid, s, 2] for fid, s in zip(ids, sizes)]
         allp = [(fid, i) for fid, s, _ in defs for i in range(s)]
         gates = []
-        for _ in range(5 if thorough else 4):
+        for _ in range(7 if thorough else 6):
             gd, m = rand_gate_desc(rng, min(len(allp), 4))
             gates.append((gd, rng.sample(allp, m)))
         for order in itertools.permutations(ids):
@@ -580,7 +587,7 @@ def run(rep, tier, rng, drv):
             rep.count(c["op"] + (":malformed" if "malformed" in c else ""))
             yield c
     run_correspondence(rep, drv, counted(), impl, model_req, compare, oracle,
-                       "embed/gate.circuit_matrix/permute/wire", batch=250,
+                       "embed/gate.circuit_matrix/permute/wire", batch=250, req_uses_output=True,
                        nontrivial=lambda c, o: "raised" not in o and "harness_exception" not in o)
     N, M = (7, 4) if tier == "thorough" else (5, 3)
     rep.cov["exhaustive"] = {"embed": f"all ordered selections of m<={M} distinct wires out of n<={N}",
